@@ -45,17 +45,17 @@ Lemma fence_none fence a c f : a_fids a c f = None -> a_fids (apply_fence fence 
 Proof. intros H. cbn. now rewrite H. Qed.
 
 Lemma spec_clunk_unbinds a c f p o fence :
-  a_fids a c f = Some p -> a_fids (fst (spec_step a c (Tclunk f) o fence)) c f = None.
+  a_fids a c f = Some p -> o <> BPanicEarly -> a_fids (fst (spec_step a c (Tclunk f) o fence)) c f = None.
 Proof.
-  intros Hb. unfold spec_step, spec_reject. rewrite Hb.
-  destruct o; cbn [fst post_fail post_ok]; apply fence_none, bind_fid_same.
+  intros Hb Ho. unfold spec_step, spec_reject. rewrite Hb.
+  destruct o; try congruence; cbn [fst post_fail post_ok]; apply fence_none, bind_fid_same.
 Qed.
 Lemma spec_remove_unbinds a c f p o fence :
-  a_fids a c f = Some p -> a_fids (fst (spec_step a c (Tremove f) o fence)) c f = None.
+  a_fids a c f = Some p -> o <> BPanicEarly -> a_fids (fst (spec_step a c (Tremove f) o fence)) c f = None.
 Proof.
-  intros Hb. unfold spec_step. destruct (spec_reject a c (Tremove f)).
+  intros Hb Ho. unfold spec_step. destruct (spec_reject a c (Tremove f)).
   - cbn [fid1_of]. rewrite Hb. apply bind_fid_same.
-  - destruct o; cbn [fst post_fail post_ok]; apply fence_none, bind_fid_same.
+  - destruct o; try congruence; cbn [fst post_fail post_ok]; apply fence_none, bind_fid_same.
 Qed.
 
 (** Twalk / Twalkgetattr / Tattach / Txattrwalk / Tlcreate bind only on success: after an error
@@ -66,14 +66,16 @@ Definition binds (m : tmsg) : bool :=
   | _ => false
   end.
 Lemma spec_bind_only_on_success a c m o fence e :
-  binds m = true -> snd (spec_step a c m o fence) = Some e ->
+  binds m = true -> (forall k fz n, o <> BPanicLate k fz n) -> snd (spec_step a c m o fence) = Some e ->
   fst (spec_step a c m o fence) = a \/ fst (spec_step a c m o fence) = apply_fence fence a.
 Proof.
-  intros Hb He. unfold spec_step in *. destruct (spec_reject a c m) eqn:R.
+  intros Hb Hl He. unfold spec_step in *. destruct (spec_reject a c m) eqn:R.
   - left. destruct m; cbn in Hb; try discriminate; reflexivity.
-  - destruct o as [e'|k fz n].
+  - destruct o as [e'|k fz n| |k fz n].
     + right. destruct m; cbn in Hb; try discriminate; reflexivity.
     + cbn in He. destruct m; cbn in Hb; try discriminate; cbn in He; discriminate.
+    + right. reflexivity.
+    + exfalso. eapply Hl; reflexivity.
 Qed.
 
 (** success of the binding requests binds newfid (replacing any previous binding) *)
